@@ -88,6 +88,13 @@ type options struct {
 	Routes                 []route  `json:"routes"`
 	SourceLinkLayerAddress string   `json:"source_link_layer_address"`
 	CaptivePortal          string   `json:"captive_portal"`
+	PREF64                 []pref64 `json:"pref64"`
+}
+
+// A pref64 represents an NDP PREF64 option.
+type pref64 struct {
+	Prefix          string `json:"prefix"`
+	LifetimeSeconds int    `json:"lifetime_seconds"`
 }
 
 // A dnssl represents an NDP DNS Search List option.
@@ -134,6 +141,11 @@ func packOptions(opts []ndp.Option) options {
 			out.SourceLinkLayerAddress = o.Addr.String()
 		case *ndp.MTU:
 			out.MTU = int(o.MTU)
+		case *ndp.PREF64:
+			out.PREF64 = append(out.PREF64, pref64{
+				Prefix:          o.Prefix.String(),
+				LifetimeSeconds: int(o.Lifetime.Seconds()),
+			})
 		case *ndp.PrefixInformation:
 			out.Prefixes = append(out.Prefixes, prefix{
 				Prefix:                             prefixString(o.Prefix, o.PrefixLength),
